@@ -21,6 +21,8 @@ THEOREMS = [(M, "NQ.C03." + n) for n in [
     "source_operand_text_roundtrip", "replaceConstants_preserves_reserved", "reserved_not_scratch",
     "reserved_preserved", "F42_reserved_witness",
     "assemble_pure", "assemble_twice", "imm_exempt",
+    "front_syms", "text_syms_ok", "parse_render_program", "parse_render_program_canon",
+    "parse_render_with_macros", "text_assemble_simulates", "nonvacuous_text",
 ]]
 TRANSLATORS = ["instr_table", "asm_pass_tables"]
 LEVEL_TEXT = (
@@ -44,7 +46,10 @@ LEVEL_TEXT = (
     "in the source (top level, entry index, slice bounds) nor reserved, operand patching and label targets. "
     "IR as programs build it (shared ICmd / operands-list / ArrayEntry objects, a container with a copying "
     "`commands` accessor, the same ProtoSubroutine assembled twice) must assemble like the IR with fresh objects; "
-    "`assemble_twice` proves the model's fixed-point property.")
+    "`assemble_twice` proves the model's fixed-point property. Text: `parse_render_program` — the model of "
+    "`parse_text_protosubroutine` (split, preamble, macros, body lines with labels / bracketed args / every "
+    "operand form) reads back every rendered proto program with blank and comment-only lines anywhere; the "
+    "model is tied to the code by the differential stream `asm.parsetext` (equal proto or same error class).")
 LEVEL_NOTE = (
     "Trusted: Lean kernel; translator + harness; the hand-written role table of the 21 classical/array/"
     "allocation instructions (which operand positions are read / written / immediate / target), validated "
@@ -175,6 +180,24 @@ ALIAS_CORPUS = [
       {"m": "ret_reg", "a": [], "o": [{"r": [0, 0]}]}], (None, True, False)),
     ([{"m": "add", "a": [], "o": [{"r": [0, 0]}, {"r": [0, 0]}, {"i": 1}]}, {"l": "L"},
       {"m": "jmp", "a": [], "o": [{"lab": "L"}]}], (None, True, True)),
+]
+
+
+FRONT_CORPUS = [
+    "# NETQASM 1.0\n# APPID 0\nset R0 1\n",
+    "set R0 1\n# APPID 0\n",                          # preamble after the body
+    "#\nset R0 1\n",                                   # a lone preamble marker
+    "# DEFINE  x\nset R0 1\n",                         # empty macro key
+    "# DEFINE a R0\n# DEFINE a R1\nset $a 1\n",        # duplicate key
+    "L:  // c\nset R0 1\n",                            # label line followed by blanks and a comment
+    "L:// c\njmp L\n",
+    ":\n",
+    "array( 3 , 4 ) @0\nstore(7) @0[1]\nwait_all @0[R1:2]\n",
+    "# NETQASM 1\nset R0 1\n",
+    "# APPID x\nfoo R0\n",                             # the body error comes first
+    "set R0 {x}\nset R0 { y }\n",
+    "   \n\t\n// only comments\n",
+    "",
 ]
 
 
@@ -368,6 +391,26 @@ def run(ctx):
             word_real.append(H.real_group_by_word(ln, "()"))
         if len(res.samples) < 5 and macros:
             res.samples.append({"text": text})
+    # whole front end: `parse_text_protosubroutine` vs the model `AsmFront.parseTextProto`
+    front_texts = []
+    for _ in range(n_text // 2):
+        p = H.gen_std_program(rng, max_len=8) if rng.random() < 0.7 else H.gen_wild_program(rng, max_len=6)
+        wild = rng.random() < 0.35
+        if not wild:
+            p = [c for c in p if not any("t" in o for o in c.get("o", []))]
+        macros = H.gen_macros(rng, p) if rng.random() < 0.5 else []
+        front_texts.append(H.render_front(p, rng, macros, wild))
+    front_texts += FRONT_CORPUS
+    for txt, mm in zip(front_texts, H.batch(drv, [{"op": "asm.parsetext", "text": t} for t in front_texts])):
+        res.evaluations += 1
+        rr = H.real_parse_front(txt)
+        res.count("front:" + ("ok" if "ok" in rr else rr["err"]))
+        if "ok" in rr and len(rr["ok"]) > 0:
+            res.nontrivial.add(txt)
+        if rr != mm:
+            res.disagreements.append({"stream": "asm.parsetext", "input": txt, "model": mm, "code": rr})
+            if len(res.disagreements) > 10:
+                break
     # malformed lines for the tokeniser
     for _ in range(n_text // 2):
         ln = "".join(rng.choice("ab1 ()[],@$:R") for _ in range(rng.randrange(1, 14)))
